@@ -1,8 +1,64 @@
-/- driver ops for the Segment model (filled in when the module is ported) -/
+/-
+Driver ops for the Segment model (C05).
+
+  seg_halt <segs> | prog          wrapper `py_segment_cant_halt` (params from defined keys: F2)
+  seg_blank <segs> | prog
+  seg_spin_out <segs> | prog
+  seg_halt_fix <segs> | prog      driver only: the wrapper with `fixF2 = true`
+  seg_blank_fix / seg_spin_out_fix
+  segp_halt <states> <colors> <segs> | prog     trait API with explicit params
+  segp_blank / segp_spin_out
+
+output: halt | blank | repeat | spinout | depth_limit | segment_limit | refuted(<step>) | PANIC
+        (FUEL if a model loop ran out of its computed fuel: never expected)
+-/
 import BB.Model.Instrs
+import BB.Model.Segment
 
 namespace BB.Driver.OpsSegment
 
-def handle (_op : String) (_args : List String) (_text : String) : Option String := none
+open BB.Segment
+
+def showSegmentResult : SegmentResult → String
+  | .halt => "halt"
+  | .blank => "blank"
+  | .repeat => "repeat"
+  | .spinout => "spinout"
+  | .depthLimit => "depth_limit"
+  | .segmentLimit => "segment_limit"
+  | .refuted step => s!"refuted({step})"
+
+def showRes : Except Err SegmentResult → String
+  | .ok r => showSegmentResult r
+  | .error .panic => "PANIC"
+  | .error .fuel => "FUEL"
+
+def withProg (text : String) (f : Prog → String) : String :=
+  match Prog.fromStr text with
+  | .error _ => "PANIC"
+  | .ok p => f p
+
+def goalOf : String → Option Term
+  | "halt" => some .halt
+  | "blank" => some .blank
+  | "spin_out" => some .spinout
+  | _ => none
+
+def handle (op : String) (args : List String) (text : String) : Option String :=
+  if op.startsWith "segp_" then
+    match goalOf (op.drop 5).toString, args with
+    | some goal, [states, colors, segs] =>
+      some (withProg text fun p =>
+        showRes (segmentCantReach p (states.toNat!, colors.toNat!) segs.toNat! goal))
+    | _, _ => none
+  else if op.startsWith "seg_" then
+    let rest := (op.drop 4).toString
+    let (name, fix) :=
+      if rest.endsWith "_fix" then ((rest.dropEnd 4).toString, true) else (rest, false)
+    match goalOf name, args with
+    | some goal, [segs] =>
+      some (withProg text fun p => showRes (pySegmentCantReach p segs.toNat! goal fix))
+    | _, _ => none
+  else none
 
 end BB.Driver.OpsSegment
